@@ -500,7 +500,14 @@ func HarnessC17Track() {
 // (e.g. os.ModeDir for a d--------- directory: the Mode field is written with value 0) has its own assertion id.
 func HarnessC17Reload() {
 	mode := os.FileMode(verifrt.NondetU32("mode"))
-	mtime := zzvMtime()
+	var mtime time.Time
+	if !verifrt.NondetBool("mtime-unset") {
+		// one varint class of seconds (the classes are HarnessC17DataField's subject), nanoseconds zero or not
+		s := verifrt.NondetI64("s")
+		verifrt.Assume(s >= 1<<28)
+		verifrt.Assume(s < 1<<35)
+		mtime = time.Unix(s, zzvNanos("ns"))
+	}
 	d, err := NewBasicDirectory(nil, zzvBlockMode(), WithStat(mode, mtime))
 	verifrt.Assert("C17.reload-new-ok", err == nil)
 	zzvCheckExact("C17.reload-exact-before", d)
